@@ -316,6 +316,8 @@ SEEDS = [
     "<item xmlns='http://jabber.org/protocol/pubsub' id='current'><moved xmlns='urn:xmpp:moved:1'><new-jid>new@example.org</new-jid></moved></item>",
     "<html xmlns='http://jabber.org/protocol/xhtml-im'><body xmlns='http://www.w3.org/1999/xhtml'><p style='font-weight:bold'>hi <a href='http://x/?a=1&amp;b=2'>&lt;there&gt;</a></p></body></html>",
     "<iq type='get' id='pref1'><pref xmlns='urn:xmpp:archive'/></iq>",
+    "<db:result xmlns:db='jabber:server:dialback' from='capulet.example' to='montague.example'>b4835385f37fe2895af6c196b59097b16862406db80559900d96bf6fa7d23df3</db:result>",
+    "<db:verify xmlns:db='jabber:server:dialback' from='montague.example' to='capulet.example' id='417GAF25' type='valid'/>",
     "<iq type='error' id='rpc1' from='responder@company-a.com/jrpc-server' to='requester@company-b.com/jrpc-client'><query xmlns='jabber:iq:rpc'>"
     "<methodCall><methodName>examples.getStateName</methodName><params><param><value><i4>6</i4></value></param></params></methodCall></query>"
     "<error code='403' type='auth'><forbidden xmlns='urn:ietf:params:xml:ns:xmpp-stanzas'/></error></iq>",
